@@ -5,7 +5,7 @@
    `BddValuation` (`all_false`, `all_true`, `set`, `clear`, `flip_value`, `set_value`, `IndexMut`, `value`, `Index`,
    `vector`, `num_vars`).  Definitions only; proofs are in Proofs/Alias.v. *)
 From Coq Require Import List NArith Bool. Import ListNotations.
-From BddVerif Require Import Model.Bdd Model.Apply Model.Ops Model.Serial Model.Expr Model.OptDnf.
+From BddVerif Require Import Model.Bdd Model.Apply Model.Ops Model.Serial Model.Expr Model.OptDnf Model.VarSet Model.Dot.
 Open Scope N_scope.
 
 (* ---- _impl_relation_ops.rs: #[deprecated] project / var_project call exists / var_exists *)
@@ -73,3 +73,9 @@ Definition val_all (c : bool) (n : N) : list bool := repeat c (N.to_nat n).   (*
 Definition val_value (v : list bool) (x : N) : outcome bool :=                (* value / Index *)
   match nth_error v (N.to_nat x) with Some c => Ok c | None => Panic end.
 Definition val_num_vars (v : list bool) : N := N.of_nat (length v) mod 65536. (* `self.0.len() as u16` *)
+
+(* ---- _impl_export_dot.rs: write_as_dot_string into an arbitrary `Write` — every line goes through `writeln!` = write_fmt
+   = write_all, so the bytes a scripted writer accepts are those of ONE write_all of the whole text under the same schedule
+   (Proofs/SerialIO.v: write_pieces_clean / write_pieces_fail — the split into pieces does not matter) *)
+Definition dot_write_sched_m (b : bdd) (names : list VarSet.name) (pruned : bool) (sched : list event) : outcome (bool * list N) :=
+  bind (dot_of_names b names pruned) (fun text => let r := write_all text sched [] in Ok (fst r, rev (snd (snd r)))).
